@@ -472,6 +472,13 @@ def frame_kinds(c):
     add("close-trunc-utf8", E(8, F.close_payload(1000, b"ab\xe2\x82"), mask=m))
     add("close-999-bad-utf8", E(8, F.close_payload(999, b"\xff"), mask=m))
     add("text-rsv1", E(1, (_deflate_payload(11)[0] if c["compress"] else b"Hello"), rsv=4, mask=m))
+    if c["compress"]:
+        # one compressed message cut into two frames at a point that is no deflate block boundary
+        import zlib
+        co = zlib.compressobj(6, zlib.DEFLATED, -15)
+        body = (co.compress(b"Hello, hello, hello, hello - hello!") + co.flush(zlib.Z_SYNC_FLUSH))[:-4]
+        add("text-rsv1-frag-open", E(1, body[:5], fin=False, rsv=4, mask=m))
+        add("cont-fin-deflate-rest", E(0, body[5:], mask=m))
     add("text-rsv2", E(1, b"Hello", rsv=2, mask=m))
     add("text-rsv3", E(1, b"Hello", rsv=1, mask=m))
     add("cont-rsv1", E(0, b"x", rsv=4, mask=m))
@@ -503,6 +510,17 @@ def _sequences(c, tier, maxlen):
     return seqs, d
 
 
+def _garbage_deflate(seq):
+    for i, k in enumerate(seq):
+        if k == "text-rsv1-frag-open":
+            for k2 in seq[i + 1:]:
+                if k2.startswith("cont-"):
+                    if k2 != "cont-fin-deflate-rest":
+                        return True
+                    break
+    return False
+
+
 def _job_seq(a, c, env):
     from ref import ws_receiver as R
     stats = _new_stats()
@@ -514,6 +532,11 @@ def _job_seq(a, c, env):
     classes = set()
     evals = 0
     for seq in seqs:
+        if _garbage_deflate(seq):
+            # the first half of the compressed message continued by anything but its second half:
+            # garbage deflate data is outside the alphabet (ASSUMPTIONS)
+            stats["skipped_garbage_deflate"] = stats.get("skipped_garbage_deflate", 0) + 1
+            continue
         stream = b"".join(d[k] for k in seq)
         v = R.judge(stream, _refctx(c))
         obs = run_stream(c, [stream])
